@@ -163,6 +163,12 @@ pub async fn remove_config(
     if !namespace_privilege.check_permission(&config_key.tenant) {
         user_no_namespace_permission!(&config_key.tenant);
     }
+    if let Err(e) = config_key.is_valid() {
+        return HttpResponse::Ok().json(ApiResult::<()>::error(
+            ERROR_CODE_SYSTEM_ERROR.to_string(),
+            Some(e.to_string()),
+        ));
+    }
     let req = DelConfigReq::new(config_key);
     if appdata.config_route.del_config(req).await.is_ok() {
         HttpResponse::Ok().json(ApiResult::success(Some(true)))
